@@ -104,6 +104,23 @@ func (fr *frame) get(key ssa.Value) Value {
 			fr.in.stubsUsed["time package globals (zero-initialised)"]++
 			return fr.in.globals[key]
 		}
+		if key.Pkg != nil && stdInitAllowed[key.Pkg.Pkg.Path()] && !fr.in.initialised[key.Pkg] {
+			// small data-only standard packages: run their initialiser (tables) on first use
+			p := key.Pkg
+			fr.in.initialised[p] = true
+			for _, m := range p.Members {
+				if g, ok := m.(*ssa.Global); ok {
+					v := zero(deref(g.Type()))
+					fr.in.globals[g] = &v
+				}
+			}
+			if f := p.Func("init"); f != nil {
+				fr.in.callSSA(nil, 0, f, nil, nil)
+			}
+			if r, ok := fr.in.globals[key]; ok {
+				return r
+			}
+		}
 		if key.Pkg != nil {
 			// sentinel errors of the standard library keep their identity
 			name := key.Pkg.Pkg.Path() + "." + key.Name()
@@ -192,6 +209,8 @@ func (in *Interp) tpanic(kind, msg string) {
 }
 
 const maxCallDepth = 3000
+
+var stdInitAllowed = map[string]bool{"unicode/utf8": true}
 
 var sentinelErrors = map[string]string{
 	"io/fs.SkipDir": "skip this directory", "io/fs.SkipAll": "skip everything and stop the walk",
